@@ -29,14 +29,15 @@ func genC09Actions(t *rapid.T, r *Rule, allowAcc bool, accInc map[int]int, topID
 		case 2:
 			r.Acts = append(r.Acts, fmt.Sprintf("setvar:tx.score=-%d", rapid.IntRange(1, 3).Draw(t, "dec")))
 		case 3:
-			r.Acts = append(r.Acts, fmt.Sprintf("setvar:tx.score=+%%{tx.w%d}", rapid.IntRange(1, 2).Draw(t, "w")))
+			// weight taken from another variable; w1 may be negative (a credit), so the expanded operand carries its own sign
+			r.Acts = append(r.Acts, fmt.Sprintf("setvar:tx.score=%s%%{tx.w%d}", rapid.SampledFrom([]string{"+", "+", "-"}).Draw(t, "wsign"), rapid.IntRange(1, 2).Draw(t, "w")))
 		case 4:
 			r.Acts = append(r.Acts, "setvar:tx.hit_%{rule.id}=+1")
 		case 5:
 			r.Acts = append(r.Acts, "setvar:'tx.n_%{MATCHED_VAR_NAME}=+1'")
 		case 6:
 			r.Acts = append(r.Acts, fmt.Sprintf("setvar:tx.flag%d=%s", rapid.IntRange(1, 2).Draw(t, "f"),
-				rapid.SampledFrom([]string{"1", "7", "%{rule.id}", "%{tx.w1}", "%{REQUEST_METHOD}", "v"}).Draw(t, "fv")))
+				rapid.SampledFrom([]string{"1", "7", "%{rule.id}", "%{tx.w2}", "%{REQUEST_METHOD}", "v"}).Draw(t, "fv")))
 		case 7:
 			r.Acts = append(r.Acts, fmt.Sprintf("setvar:!tx.flag%d", rapid.IntRange(1, 2).Draw(t, "f")))
 		case 8:
@@ -81,7 +82,7 @@ func genC09Match(t *rapid.T, r *Rule) {
 func genC09(t *rapid.T) *C09Case {
 	c := &C09Case{AccInc: map[int]int{}}
 	c.Cfg.Engine = rapid.SampledFrom([]string{"On", "On", "On", "DetectionOnly"}).Draw(t, "engine")
-	w1, w2 := rapid.IntRange(1, 5).Draw(t, "w1"), rapid.IntRange(2, 9).Draw(t, "w2")
+	w1, w2 := rapid.IntRange(-3, 5).Draw(t, "w1"), rapid.IntRange(2, 9).Draw(t, "w2")
 	items := []Item{{Rule: &Rule{ID: 1, Phase: 1, SecAction: true, Disr: "pass",
 		Acts: []string{fmt.Sprintf("setvar:tx.w1=%d", w1), fmt.Sprintf("setvar:tx.w2=%d", w2)}}}}
 	n := rapid.IntRange(2, 7).Draw(t, "nrules")
@@ -171,6 +172,7 @@ func describeTX(m map[string]string) string {
 func checkC09(c *C09Case) Result {
 	res := Result{}
 	conf := c.RS.Render()
+	negW1 := strings.Contains(conf, "setvar:tx.w1=-")
 	w, err := newWAF(conf)
 	if err != nil {
 		res.Fail = failf("generated configuration rejected: %v\n%s", err, conf)
@@ -306,6 +308,9 @@ func checkC09(c *C09Case) Result {
 		for _, a := range r.Acts {
 			if strings.Contains(a, "%{") && strings.Contains(strings.SplitN(a, "=", 2)[0], "%{") {
 				res.Labels = append(res.Labels, "macro-key")
+			}
+			if strings.Contains(a, "{tx.w1}") && strings.Contains(a, "tx.score=") && negW1 {
+				res.Labels = append(res.Labels, "signed-macro-operand")
 			}
 		}
 	}
